@@ -237,6 +237,19 @@ let run_line (line : string) =
      | "X" ->   (* DefinitionSchema.expand *)
          let schema = dict_of (parse_value ()) in
          out_res (fun d -> add "\"schema\":"; out_value (VDict d)) (expand_top schema)
+     | "W" ->   (* acceptance: expand, then the documented grammar *)
+         let strs () = let n = next_int () in rep n next_str in
+         let types = strs () in let coercers = strs () in let setters = strs () in let checkers = strs () in
+         let extra_v = strs () in let extra_n = strs () in
+         let k = { k_types = types; k_coercers = coercers; k_setters = setters; k_checkers = checkers;
+                   k_validation_rules = base_validation_rules @ extra_v; k_normalization_rules = base_normalization_rules @ extra_n } in
+         let rr = parse_registry () in
+         let sr = parse_registry () in
+         let schema = dict_of (parse_value ()) in
+         (match expand_top schema with
+          | Ok s -> add (if accepts k rr sr s then "{\"r\":\"accepted\"}" else "{\"r\":\"rejected\"}")
+          | Raise (e, _) -> add "{\"r\":\"raise\",\"exn\":"; json_string (exn_name e); add "}"
+          | OutOfFuel -> add "{\"r\":\"fuel\"}")
      | "T" ->   (* build both trees from an error forest *)
          let n = next_int () in
          let errs = rep n parse_error in
